@@ -242,7 +242,7 @@ func (e *Exec) isIgnoredExt(fn *ssa.Function) bool {
 
 func (e *Exec) isPureExtBuiltin(fn *ssa.Function) bool {
 	switch fnKey(fn) {
-	case "errors.New", "fmt.Errorf", "fmt.Sprintf", "fmt.Sprint", "errors.Is", "errors.As", "fmt.Printf", "fmt.Println",
+	case "errors.New", "fmt.Errorf", "fmt.Sprintf", "fmt.Sprint", "errors.Is", "errors.As", "fmt.Printf", "fmt.Println", "fmt.Fprint",
 		"regexp.MustCompile", "(*regexp.Regexp).FindStringSubmatch", "(*regexp.Regexp).FindAllStringSubmatch":
 		return true
 	}
@@ -330,6 +330,18 @@ func (e *Exec) extBuiltinC(st *State, c *ssa.CallCommon, fn *ssa.Function, key s
 			}
 		}
 		e.trusted("fmt.Sprintf returns an arbitrary string")
+		return r, true
+	case "fmt.Fprint":
+		e.trusted("D8: fmt.Fprint to a connection: the bytes written are not modelled (only counted in ghost_nwrites(w)); it may fail")
+		r := e.freshOf(st, "fprint", sig.Results())
+		if tp, ok := r.(*Tuple); ok && len(tp.Vals) == 2 {
+			w := e.asTerm(st, args[0], sig.Params().At(0).Type())
+			errT := tp.Vals[1].(Term)
+			e.ghostSorts["ghost_nwrites"] = SInt
+			arr := e.heapComp(st, "G.ghost_nwrites", SInt, arraySort(SInt, SInt))
+			cur := tSelect(arr, w, SInt)
+			e.setHeap(st, "G.ghost_nwrites", tStore(arr, w, tIte(tEq(errT, tInt(0)), tAdd(cur, tInt(1)), cur)))
+		}
 		return r, true
 	case "fmt.Printf", "fmt.Println", "fmt.Fprintf":
 		e.trusted("D1: fmt.Printf debug output has no effect on program state")
